@@ -33,7 +33,8 @@ TECHNIQUE = ('runtime monitoring: reference-model monitor (sum over residues fro
 LEVEL_TEXT = ('Randomly generated and systematically enumerated code strings (every code, every ordered pair in the '
               'thorough tier) are pushed through Sequence, the formula prefixes and the FASTA readers and compared '
               'with a reference that re-reads the residue tables from the module source and sums them itself; '
-              'sampling, not proof, over the infinite set of strings.')
+              'sampling, not proof, over the infinite set of strings.'
+              ' Added in rounds 5-7: sequences of 1000-20000 residues, refused sequences before the judged one, clones of Sequence objects.')
 LEVEL_NOTE = ('Trusted: the ast/regex table reader and the 20-line formula reader in pvmon/ref/fasta_ref.py, the mass '
               'reader pvmon/ref/masses.py, the IUPAC meaning of the ambiguity codes and the transcription of the '
               'residue rows carried by the reference, CPython fractions, the file system under /verif/out.')
